@@ -34,19 +34,31 @@
 #define M_CELT 1002
 
 /* ------------------------------------------------------------------ heap / stack poisoning */
+#if defined(__has_feature)
+#if __has_feature(memory_sanitizer)
+#define C12_MSAN 1      /* MemorySanitizer build: filling would mark the memory initialised and blind the tool */
+#endif
+#endif
 static int g_fill = -1;
+static int g_bufpat = 0xEE;   /* what the caller's output buffers hold before a call (packet, PCM, repacketizer output) */
 void *__real_malloc(size_t n);
 void *__wrap_malloc(size_t n)
 {
    void *p = __real_malloc(n);
+#ifndef C12_MSAN
    if (p && g_fill >= 0) memset(p, g_fill, n);
+#endif
    return p;
 }
 static void __attribute__((noinline)) dirty_stack(int pat)
 {
+#ifndef C12_MSAN
    volatile unsigned char buf[160000];
    size_t i;
    for (i = 0; i < sizeof buf; i++) buf[i] = (unsigned char)pat;
+#else
+   (void)pat;
+#endif
 }
 
 /* ------------------------------------------------------------------ kinds, ops, records */
@@ -249,7 +261,7 @@ static void run_op(Case *c, Obj *o, const Op *op, Rec *r)
    case OP_ENC: {
       int fs = op->a, api = op->b, maxb = op->c, n = fs * c->ch; opus_uint32 rng = 0;
       gen_signal(op->seed, op->d, g_pcm, fs, c->ch, c->Fs);
-      memset(g_pkt, 0xEE, maxb < PKTCAP ? maxb : PKTCAP);
+      memset(g_pkt, g_bufpat, maxb < PKTCAP ? maxb : PKTCAP);
       if (api == 1) to16(g_pcm, g_p16, n); else if (api == 2) to24(g_pcm, g_p24, n);
       switch (o->kind) {
       case K_ENC:
@@ -271,7 +283,7 @@ static void run_op(Case *c, Obj *o, const Op *op, Rec *r)
    case OP_DEC: {
       const unsigned char *d = op->a >= 0 ? c->pk[op->a] : NULL; int len = op->a >= 0 ? c->pklen[op->a] : 0;
       int api = op->b, fec = op->c, fs = op->d; opus_uint32 rng = 0; long bytes = 0; const void *outp = g_out;
-      memset(g_out, 0x7B, sizeof(float) * (size_t)(fs > 0 ? fs : 0) * c->ch);
+      memset(g_out, g_bufpat ^ 0x95, sizeof(float) * (size_t)(fs > 0 ? fs : 0) * c->ch);
       switch (o->kind) {
       case K_DEC:
          r->ret = api == 0 ? opus_decode_float((OpusDecoder *)o->p, d, len, g_out, fs, fec)
@@ -297,7 +309,7 @@ static void run_op(Case *c, Obj *o, const Op *op, Rec *r)
       r->v[0] = opus_repacketizer_get_nb_frames((OpusRepacketizer *)o->p); r->nv = 1; break;
    default: {
       int nb = opus_repacketizer_get_nb_frames((OpusRepacketizer *)o->p), b = op->a, e = op->b;
-      memset(g_rpout, 0xEE, sizeof g_rpout);
+      memset(g_rpout, g_bufpat, sizeof g_rpout);
       if (e < 0) r->ret = opus_repacketizer_out((OpusRepacketizer *)o->p, g_rpout, op->c);
       else { if (nb > 0) { b %= nb; e = b + 1 + e % (nb - b); } r->ret = opus_repacketizer_out_range((OpusRepacketizer *)o->p, b, e, g_rpout, op->c); }
       rec_payload(r, g_rpout, r->ret > 0 ? r->ret : 0);
@@ -691,10 +703,10 @@ static int run_case(int mode, Case *c)
       obj_free(&a); obj_free(&b);
    } else {                               /* determinism */
       vrng dr; OpusEncoder *de; OpusDecoder *dd; void *junk[8]; int j;
-      g_fill = 0x00; dirty_stack(0x00); a = obj_new(c);            /* run 1: zero pages, as a fresh process sees them */
+      g_fill = 0x00; g_bufpat = 0x00; dirty_stack(0x00); a = obj_new(c);            /* run 1: zero pages, as a fresh process sees them */
       for (i = 0; i < c->nops; i++) { dirty_stack(0x00); run_op(c, &a, &c->ops[i], &g_ra[i]); }
       obj_free(&a);
-      g_fill = 0x5A; dr.s = 12345;                                 /* run 2: dirty heap and stack, other objects alive */
+      g_fill = 0x5A; g_bufpat = 0xEE; dr.s = 12345;                                 /* run 2: dirty heap and stack, other objects alive */
       for (j = 0; j < 8; j++) junk[j] = malloc(1000 + 7919 * j);
       de = opus_encoder_create(48000, 2, OPUS_APPLICATION_AUDIO, &err); dd = opus_decoder_create(48000, 2, &err);
       for (j = 0; j < 8; j += 2) free(junk[j]);
